@@ -179,7 +179,30 @@ type handlerEntry struct {
 	handler ndn.InterestHandler
 }
 
+// hookSpec is spec_2022 with a harness hook: before the k-th MakeData of the current Produce call the
+// harness can act (a Remove while Produce holds its store transaction open) - no repository hook needed
+type hookSpec struct{ e *hEngine }
+
+func (h hookSpec) MakeData(name enc.Name, config *ndn.DataConfig, content enc.Wire, signer ndn.Signer) (*ndn.EncodedData, error) {
+	if h.e.onMakeData != nil {
+		h.e.makeDataN++
+		h.e.onMakeData(h.e.makeDataN)
+	}
+	return spec.Spec{}.MakeData(name, config, content, signer)
+}
+func (h hookSpec) MakeInterest(name enc.Name, config *ndn.InterestConfig, appParam enc.Wire, signer ndn.Signer) (*ndn.EncodedInterest, error) {
+	return spec.Spec{}.MakeInterest(name, config, appParam, signer)
+}
+func (h hookSpec) ReadData(reader enc.ParseReader) (ndn.Data, enc.Wire, error) {
+	return spec.Spec{}.ReadData(reader)
+}
+func (h hookSpec) ReadInterest(reader enc.ParseReader) (ndn.Interest, enc.Wire, error) {
+	return spec.Spec{}.ReadInterest(reader)
+}
+
 type hEngine struct {
+	onMakeData func(n int)
+	makeDataN  int
 	net      *network
 	running  bool
 	handlers []handlerEntry
@@ -188,7 +211,7 @@ type hEngine struct {
 }
 
 func (e *hEngine) EngineTrait() ndn.Engine { return e }
-func (e *hEngine) Spec() ndn.Spec          { return spec.Spec{} }
+func (e *hEngine) Spec() ndn.Spec          { return hookSpec{e} }
 func (e *hEngine) Timer() ndn.Timer        { return e.timer }
 func (e *hEngine) Start() error            { e.running = true; return nil }
 func (e *hEngine) Stop() error             { e.running = false; return nil }
@@ -583,7 +606,26 @@ func exec(op string) string {
 			}
 			return r, describePuts(rs.log)
 		}
+		// rm=<name>,<pfx>,<k>: Remove(name, pfx) issued while this Produce holds its transaction open, just
+		// before its k-th MakeData (memory store). BoltStore.Remove is a db.Update and would wait for the open
+		// write transaction (single-threaded: for ever), so on bolt the equivalent serial order is executed:
+		// the Remove first, then the Produce.
+		if rm := a["rm"]; rm != "" && size > 0 {
+			parts := strings.Split(rm, ",")
+			rmName := common.ParseNameText(parts[0])
+			rmPfx := parts[1] == "1"
+			k := min(max(common.Atoi(parts[2]), 1), (size-1)/8000+2)
+			h.prodEng.makeDataN = 0
+			h.prodEng.onMakeData = func(n int) {
+				if n == k {
+					h.mem.Remove(rmName, rmPfx)
+				}
+			}
+			defer func() { h.prodEng.onMakeData = nil }()
+			h.bolt.Remove(rmName, rmPfx)
+		}
 		r1, p1 := run(h.prodMem, h.recMem)
+		h.prodEng.onMakeData = nil
 		progress.Add(1)
 		r2, p2 := run(h.prodBolt, h.recBolt)
 		progress.Add(1)
@@ -602,6 +644,64 @@ func exec(op string) string {
 		}
 		w := d.Wire.Join()
 		return "mem=" + errStr(h.recMem.Put(name, ver, w)) + " bolt=" + errStr(h.recBolt.Put(name, ver, w))
+	case "stx":
+		// ops=<item>;<item>... item = p,<name>,<ver>,<content hex> | r,<name>,<pfx>
+		// memory store: Begin, the items in order (a Remove acts while the transaction is open), Commit.
+		// bolt: BoltStore.Remove (db.Update) cannot run inside the open write transaction in one goroutine;
+		// the equivalent serial history is executed: the Removes, then Begin, the Puts, Commit.
+		ct := ndn.ContentTypeBlob
+		type item struct {
+			put  bool
+			name enc.Name
+			ver  uint64
+			wire []byte
+			pfx  bool
+		}
+		var items []item
+		for _, it := range strings.Split(a["ops"], ";") {
+			f := strings.Split(it, ",")
+			switch {
+			case f[0] == "p" && len(f) == 4:
+				nm := common.ParseNameText(f[1])
+				d, err := spec.Spec{}.MakeData(nm, &ndn.DataConfig{ContentType: &ct}, enc.Wire{common.UnHex(f[3])}, sec.NewSha256Signer())
+				if err != nil {
+					return "harness-error"
+				}
+				items = append(items, item{put: true, name: nm, ver: common.Atou(f[2]), wire: d.Wire.Join()})
+			case f[0] == "r" && len(f) == 3:
+				items = append(items, item{name: common.ParseNameText(f[1]), pfx: f[2] == "1"})
+			default:
+				return "bad-op"
+			}
+		}
+		rm, rb := "ok", "ok"
+		bad := func(r *string, err error) {
+			if err != nil {
+				*r = "err"
+			}
+		}
+		bad(&rm, h.recMem.Begin())
+		for _, it := range items {
+			if it.put {
+				bad(&rm, h.recMem.Put(it.name, it.ver, it.wire))
+			} else {
+				bad(&rm, h.mem.Remove(it.name, it.pfx))
+			}
+		}
+		bad(&rm, h.recMem.Commit())
+		for _, it := range items {
+			if !it.put {
+				bad(&rb, h.bolt.Remove(it.name, it.pfx))
+			}
+		}
+		bad(&rb, h.recBolt.Begin())
+		for _, it := range items {
+			if it.put {
+				bad(&rb, h.recBolt.Put(it.name, it.ver, it.wire))
+			}
+		}
+		bad(&rb, h.recBolt.Commit())
+		return "mem=" + rm + " bolt=" + rb
 	case "sfill":
 		// n tiny packets <pfx>/8:<i as 2 bytes> with version ver+i (asc=1), ver (asc=2) or ver+((i*37)%n), inside one transaction per store
 		pfx := common.ParseNameText(a["pfx"])
